@@ -311,6 +311,35 @@ impl World {
                 }
                 self.sh.objs[op.a as usize].s[op.b as usize] = Some(id);
             }
+            K::NewChildHolding | K::NewRootHolding => {
+                let id = self.alloc_id(KNODE);
+                let held = if op.k == K::NewChildHolding { op.c } else { op.b };
+                let r = if op.k == K::NewChildHolding {
+                    self.with_mutate(|w, mc, _, m| {
+                        let g = new_node(mc, base + id as u32);
+                        // initialise the fresh (not yet shared) object without a barrier, as a constructor would
+                        unsafe { g.s[0].as_cell().set(Some(w.node(m, held))) };
+                        link(mc, w.node(m, op.a), op.b, Some(g));
+                        Ok(Gc::as_ptr(g) as usize)
+                    })?
+                } else {
+                    self.with_root(0, |w, mc, root, m| {
+                        let g = new_node(mc, base + id as u32);
+                        unsafe { g.s[0].as_cell().set(Some(w.node(m, held))) };
+                        root.r[op.a as usize] = Some(g);
+                        Ok(Gc::as_ptr(g) as usize)
+                    })?
+                };
+                if let Caught::Done(a) = r {
+                    self.addrs.push((a, id));
+                }
+                self.sh.objs[id as usize].s[0] = Some(held);
+                if op.k == K::NewChildHolding {
+                    self.sh.objs[op.a as usize].s[op.b as usize] = Some(id);
+                } else {
+                    self.sh.roots[op.a as usize] = Some(id);
+                }
+            }
             K::Link => {
                 self.with_mutate(|w, mc, _, m| {
                     link(mc, w.node(m, op.a), op.b, Some(w.node(m, op.c)));
@@ -911,6 +940,11 @@ impl World {
     }
 
     fn finalize(&mut self, op: Op) -> VResult {
+        // finalization that leaves gray work behind is entered with a large outstanding debt as well:
+        // nothing but marking may happen inside finish_marking / finalize whatever the debt
+        if op.k != K::FinQuery && self.metrics.total_gc_count() > 0 && !self.sc.natural {
+            self.metrics.adjust_debt(HUGE);
+        }
         let reach = self.sh.reach_mask();
         let mutated = self.mutated;
         let mut arena = self.arena.take().expect("arena");
